@@ -43,7 +43,17 @@ def suite(d):
                        env=dict(os.environ, PYTHONPATH=d))
     tail = [l for l in r.stdout.strip().split("\n") if " passed" in l or " failed" in l][-1:] or [r.stdout[-200:]]
     failed = sorted(l.split(" ")[1] for l in r.stdout.split("\n") if l.startswith("FAILED "))
-    return dict(summary=tail[0].strip(" ="), failed=failed, imported_from=where, ok_path=os.path.realpath(where) == os.path.realpath(d))
+    extra = [f for f in failed if "test_parse_replays_error_osr" not in f]
+    flaky = []
+    if extra:
+        # tests sharing a scratch file (qua test_hits_only / test_holds_only write the same rice.qua) race under xdist: confirm serially
+        r2 = subprocess.run([PY, "-m", "pytest", "-q", "-p", "no:cacheprovider"] + extra, cwd=d, capture_output=True, text=True, timeout=1800,
+                            env=dict(os.environ, PYTHONPATH=d))
+        still = sorted(l.split(" ")[1] for l in r2.stdout.split("\n") if l.startswith("FAILED "))
+        flaky = [f for f in extra if f not in still]
+        failed = [f for f in failed if f not in flaky]
+    return dict(summary=tail[0].strip(" ="), failed=failed, passes_serially_after_xdist_race=flaky, imported_from=where,
+                ok_path=os.path.realpath(where) == os.path.realpath(d))
 
 
 def main():
